@@ -7,7 +7,10 @@ from props.c02 import coupling_violation
 
 RULE = ("Hypothesis: gate sequences of length 0..300 over {id,x,y,z,h,s,sdg,cx,cz,swap} on n = 2..6 qubits (three styles: "
         "mixed, mostly-local, entangling; redundant patterns hh / cx cx / swap chains / ssss drawn as macros; graph-state "
-        "circuits with local and Pauli gates) x the configurations of n; quick 16 x 100 cases, thorough 16 x 2500. A case is "
+        "circuits with local and Pauli gates) x the configurations of n; quick 16 x 100 cases, thorough 16 x 2500; plus, per "
+        "configuration: one constructed member of every class, named textbook states, the exhaustive family 'Bell pair moved by SWAPs', "
+        "and input circuits that never touch some qubits of the register (all Bell pairs, GHZ stars/chains, pairs of Bell pairs, lines "
+        "on 4 qubits, drawn sub-circuits on k < n qubits). A case is "
         "one call of compress_preparation_circuit. Non-trivial = input has >= 1 two-qubit gate, the state is entangled and "
         "the input has more two-qubit gates than the class cost; distinct by (n, connectivity, gate list). Oracle: dense "
         "fidelity of input and output states = 1 (1e-9); coupling table; two-qubit count = cost column of the class found "
@@ -154,7 +157,25 @@ def shard_classes(arg):
     return rep
 
 
+def shard_idle(arg):
+    """input circuits that never touch some qubits of the register (Bell pairs, GHZ, short lines, drawn sub-circuits on a subset)"""
+    n, name, seed, quick = arg
+    from gen import sparsecirc
+    rep = fw.Report()
+    for i, (label, circ) in enumerate(sparsecirc.sparse_circuits(n, seed, "c07idle", quick)):
+        case = {"n": n, "connectivity": name, "ops": circ, "format": "circuit"}
+        nt, tabs = classify(case)
+        rep.case(nt, case if i % 300 == 11 else None)
+        rep.count("config", f"{n}-{name}")
+        rep.count("input_leaves_qubits_untouched", f"n={n}")
+        for key, msg, extra in check_compress(case):
+            rep.fail(key, case, msg + f" [input circuit {label} leaves qubits untouched]", **extra)
+    return rep
+
+
 def shard_any(arg):
+    if arg[0] == "idle":
+        return shard_idle(arg[1:])
     if arg[0] == "classes":
         return shard_classes(arg[1:])
     if arg[0] == "bellswap":
@@ -171,7 +192,7 @@ def run(ctx):
     for n in (6, 5, 4, 3, 2):
         for chunk in fw.split(_m.orbit_reps(n), {2: 1, 3: 1, 4: 1, 5: 6, 6: 64}[n]):
             cargs.append(("classes", n, chunk, ctx.seed))
-    args = cargs + [("bellswap", n, name, ctx.seed, not ctx.quick) for (n, name) in sorted(coupling.CONFIGS, key=lambda c: -c[0])] + [("named", n, ctx.seed, part, {2: 1, 3: 1, 4: 2, 5: 6, 6: 16}[n]) for n in (6, 5, 4, 3, 2) for part in range({2: 1, 3: 1, 4: 2, 5: 6, 6: 16}[n])] + [(ctx.seed * 1000 + i, per, ctx.deadline) for i in range(16)]
+    args = cargs + [("idle", n, name, ctx.seed, ctx.quick) for (n, name) in sorted(coupling.CONFIGS, key=lambda c: -c[0]) if n >= 3] + [("bellswap", n, name, ctx.seed, not ctx.quick) for (n, name) in sorted(coupling.CONFIGS, key=lambda c: -c[0])] + [("named", n, ctx.seed, part, {2: 1, 3: 1, 4: 2, 5: 6, 6: 16}[n]) for n in (6, 5, 4, 3, 2) for part in range({2: 1, 3: 1, 4: 2, 5: 6, 6: 16}[n])] + [(ctx.seed * 1000 + i, per, ctx.deadline) for i in range(16)]
     rep = fw.run_shards(ctx, "props.c07", "shard_any", args)
     rep.extra["classes_hit"] = {k[len("orbits_n"):]: len(v) for k, v in rep.hist.items() if k.startswith("orbits_n")}
     for k in [k for k in rep.hist if k.startswith("orbits_n")]:
